@@ -281,10 +281,11 @@ impl SubscriptionMatcher {
             } => {
                 sequences.insert(partition_id, partition_sequence + 1);
             }
-            FromSequences::AllPartitions(_) => {
+            FromSequences::AllPartitions(from_sequence) => {
+                // Every other partition keeps the starting sequence it was given
                 *from_sequences = FromSequences::Partitions {
                     from_sequences: HashMap::from_iter([(partition_id, partition_sequence + 1)]),
-                    fallback: None,
+                    fallback: Some(*from_sequence),
                 };
             }
         }
